@@ -60,6 +60,12 @@ def render(mod, t, node, ch, depth=0):
         for kid in kids:
             out += WS[ch.pick("xer-ws", len(WS))]
             out += render(mod, child_type(mod, rt, kid), kid, ch, depth + 1)
+        if k == "SEQUENCE" and rt.ext and ch.pick("xer-unknown-ext", 5) == 1:
+            # an extension addition of a later version, unknown to the decoder: at the insertion point (the model keeps
+            # the additions at the end of the component list)
+            out += (b"<zzUnknown>7</zzUnknown>", b"<zzUnknown/>", b"<zzUnknown><a>1</a><b/></zzUnknown>",
+                    b"<zzU1>x</zzU1><zzU2></zzU2>")[ch.pick("xer-unknown-ext-form", 4)]
+            kids = kids or [None]
         if kids:
             out += WS[ch.pick("xer-ws", len(WS))]
         elif ch.pick("xer-ws-empty", 3) == 1:
